@@ -225,7 +225,7 @@ func mergeExtraHosts(c any, o any, _ tree.Path) (any, error) {
 	// is resolved once per visit), and a compacted slice with a stale tail then yields duplicates
 	var kept []any
 	for _, v := range left {
-		if !slices.Contains(right, v) {
+		if !slices.ContainsFunc(right, func(r any) bool { return sameScalar(r, v) }) {
 			kept = append(kept, v)
 		}
 	}
